@@ -373,7 +373,7 @@ class Pdb(Adapter):
         return Pdb._conect_shifted
 
     def pick_natom(self, rng, i, thorough):
-        extra = [10001] if not thorough else [9999, 10000, 10001, 12000, 99999]
+        extra = [] if not thorough else [12000, 99999]
         classes = [*F.SIZE_CLASSES_QUICK, *extra]
         return classes[i] if i < len(classes) else rng.randint(1, 40)
 
@@ -401,15 +401,31 @@ class Pdb(Adapter):
                               rn, x, y, zz, F.rand_fx(rng, 2, 3, 2), F.rand_fx(rng, 2, 3, 2)))
         nb = pick_nbond(rng, natom, i) if natom <= 1001 else rng.choice([0, 3, 40])
         bonds = [(a, b) for a, b, _ in rand_bonds(rng, natom, nb)]
+        # multi-line TITLE / COMPND records (continuation numbers 2..9, 10, 11, ...; empty lines inside)
+        nl = [0, 0, 2, 0, 9, 10, 0, 11, 12, 30, 0, 101][i % 12]
+        compound = None
+        if nl:
+            def line():
+                return "" if rng.random() < 0.1 else (F.rand_title(rng, allow_empty=False)[:60].strip() or "t")
+
+            title = "\n".join(line() for _ in range(nl)) or "t"
+            if title.startswith("\n") and nl == 1:
+                title = "t"
+            compound = "\n".join(line() for _ in range(nl + 1))
+        elif rng.random() < 0.15:
+            compound = F.rand_title(rng)[:60].strip()
         cls = (f"natom={natom if natom in (*F.SIZE_CLASSES_THOROUGH, 99999) else 'rand'}/defaults={int(defaults)}"
-               f"/bonds={'0' if not bonds else 'some'}/maxserial={'>=10000' if any(max(b) >= 9999 for b in bonds) else '<10000'}")
-        return {"title": title, "atoms": atoms, "bonds": bonds, "defaults": defaults}, "-", cls
+               f"/bonds={'0' if not bonds else 'some'}/maxserial={'>=10000' if any(max(b) >= 9999 for b in bonds) else '<10000'}"
+               f"/title-lines={'1' if nl < 2 else '<10' if nl < 10 else '>=10'}/compound={int(compound is not None)}")
+        return {"title": title, "atoms": atoms, "bonds": bonds, "defaults": defaults, "compound": compound}, "-", cls
 
     def enc_atom(self, a):
         return ":".join([str(a[0]), F.enc_str(a[1]), F.enc_str(a[2]), str(ord(a[3])), str(a[4]), *map(F.enc_fx, a[5:10])])
 
     def enc(self, q):
-        return ";".join([F.enc_str(q["title"]), F.enc_list(q["atoms"], self.enc_atom), F.enc_list(q["bonds"], lambda b: f"{b[0]}:{b[1]}")])
+        c = q.get("compound")
+        return ";".join([F.enc_str(q["title"]), F.enc_list(q["atoms"], self.enc_atom), F.enc_list(q["bonds"], lambda b: f"{b[0]}:{b[1]}"),
+                         "-" if c is None else F.enc_str(c)])
 
     def enc_loaded(self, q):
         return ";".join([F.enc_str(q["title"]), F.enc_str(q["compound"]) if q["compound"] is not None else "-",
@@ -436,6 +452,8 @@ class Pdb(Adapter):
                 kw["extra"]["chainids"] = np.array([a[3] for a in at])
         if q["bonds"]:
             kw["bonds"] = np.array([[a, b, 1 + (a + b) % 8] for a, b in q["bonds"]], int)
+        if q.get("compound") is not None:
+            kw.setdefault("extra", {})["compound"] = q["compound"]
         return IOData(**kw)
 
     def quant(self, d, opts="-"):
@@ -452,8 +470,8 @@ class Pdb(Adapter):
 
     def loaded_to_obj_enc(self, enc):
         """`Loaded.obj` of the model: title, atoms, bonds"""
-        t, _c, _ch, ats, bs = enc.split(";")
-        return ";".join([t, ats, bs])
+        t, c, _ch, ats, bs = enc.split(";")
+        return ";".join([t, ats, bs, c])
 
     # the loaded object has its own encoding
     def enc_any(self, q):
@@ -462,11 +480,15 @@ class Pdb(Adapter):
     # ---- S ---------------------------------------------------------------------------------
     def free_spec(self, rng, natom, i):
         return {"seed": rng.getrandbits(48), "natom": natom, "scale": rng.choice([0.5, 5.0, 50.0, 900.0]),
-                "nbond": pick_nbond(rng, natom, i) if natom <= 1001 else 5, "optional": rng.random() < 0.6}
+                "nbond": pick_nbond(rng, natom, i) if natom <= 1001 else 5, "optional": rng.random() < 0.6,
+                # multi-line TITLE / COMPND records with continuation numbers 2..9, 10, 11, ... (first case always)
+                "multiline": [0, 12, 2, 9, 10, 11, 30, 101][i % 8] if i % 3 == 0 else 0}
 
     def free_class(self, spec):
         n = spec["natom"]
-        return f"natom={n if n in (*F.SIZE_CLASSES_THOROUGH, 99999) else 'rand'}/optional={int(spec['optional'])}/nbond={'0' if not spec['nbond'] else 'n'}"
+        ml = spec.get("multiline", 0)
+        return (f"natom={n if n in (*F.SIZE_CLASSES_THOROUGH, 99999) else 'rand'}/optional={int(spec['optional'])}"
+                f"/nbond={'0' if not spec['nbond'] else 'n'}/title-lines={'1' if not ml else '<10' if ml < 10 else '>=10'}")
 
     def free_build(self, spec):
         import random
@@ -490,6 +512,11 @@ class Pdb(Adapter):
         b = rand_bonds(rng, natom, spec["nbond"])
         if b:
             kw["bonds"] = np.array(b, int)
+        ml = spec.get("multiline", 0)
+        if ml:
+            kw["title"] = "\n".join(F.rand_title(rng, allow_empty=False)[:60].strip() or "t" for _ in range(ml))
+            kw.setdefault("extra", {})["compound"] = "\n".join(
+                F.rand_title(rng, allow_empty=False)[:60].strip() or "c" for _ in range(ml + 1))
         return IOData(**kw)
 
     def compare(self, x, y):
@@ -525,6 +552,8 @@ class Pdb(Adapter):
             bad.append(("bondtypes", "reloaded bond type is not 'un'"))
         if (x.title or "Created with IOData") != y.title:
             bad.append(("title", f"{x.title!r} -> {y.title!r}"))
+        if x.extra.get("compound") != y.extra.get("compound"):
+            bad.append(("compound", f"{x.extra.get('compound')!r} -> {y.extra.get('compound')!r}"[:200]))
         return bad
 
     def known_cause(self, x):
@@ -558,7 +587,7 @@ class Pdb(Adapter):
             conn[a].append(b)
             conn[b].append(a)
         bonds = [(a, b) for a in range(n) for b in conn[a] if b > a]
-        return {"title": m["title"], "compound": None, "chainids": any(a[3] != " " for a in m["atoms"]), "atoms": m["atoms"], "bonds": bonds}
+        return {"title": m["title"], "compound": m.get("compound"), "chainids": any(a[3] != " " for a in m["atoms"]), "atoms": m["atoms"], "bonds": bonds}
 
     def spec_variants(self, m, opts):
         if len(m["atoms"]) <= 200:
@@ -569,7 +598,16 @@ class Pdb(Adapter):
         sym = _symbols()
         if upper:
             sym = {k: v.upper() for k, v in sym.items()}
-        L = ["TITLE".ljust(10) + m["title"]]
+        # wwPDB v3.3: record name in columns 1-6, continuation number right-justified in columns 9-10, text from column 11
+        def multi(key, value):
+            out = []
+            for k, line in enumerate(value.split("\n")):
+                out.append(key.ljust(10) + line if k == 0 else key.ljust(6) + str(k + 1).rjust(4) + " " + line)
+            return out
+
+        L = multi("TITLE", m["title"])
+        if m.get("compound") is not None:
+            L += multi("COMPND", m["compound"])
         for k, a in enumerate(m["atoms"]):
             rec = [" "] * 78
             rec[0:6] = "ATOM  "
